@@ -75,6 +75,31 @@ class CancelStageHandler(StabilizeHandler[CancelStage]):
                     stage.id,
                     stage.status,
                 )
+                # The stage itself is settled, but a synthetic child may still be in
+                # flight: a parent that failed because ONE before/after-stage failed
+                # (CompleteStage pushes this very CancelStage for it), or that failed
+                # just before the workflow's cancel fan-out arrived, leaves its other
+                # started children RUNNING / SUSPENDED - a SUSPENDED one for ever.
+                children = self.repository.get_synthetic_stages(stage.execution.id, stage.id) or []
+                started_children = [
+                    c for c in children if not c.status.is_complete and c.status != WorkflowStatus.NOT_STARTED
+                ]
+                if started_children:
+                    with self.repository.transaction(self.queue) as txn:
+                        if message.message_id:
+                            txn.mark_message_processed(
+                                message_id=message.message_id,
+                                handler_type="CancelStage",
+                                execution_id=message.execution_id,
+                            )
+                        for child in started_children:
+                            txn.push_message(
+                                CancelStage(
+                                    execution_type=message.execution_type,
+                                    execution_id=message.execution_id,
+                                    stage_id=child.id,
+                                )
+                            )
                 return
 
             # Cancel all tasks that are still running
